@@ -110,7 +110,7 @@ func init() {
 }
 
 func C03(r *eng.Run) {
-	r.Rule = "bounded-exhaustive product: coefficient shapes K x K x exponent gaps (every gap in the window, plus +-100..+-12287 where the integer quotient has thousands of digits) x 4 sign combinations x 6 modes; " +
+	r.Rule = "bounded-exhaustive product: coefficient shapes K x K x exponent gaps (every gap in the window, plus +-100..+-12287 where the integer quotient has thousands of digits) x 4 sign combinations x modes (all six when the quotient must be rounded, two when it is exact), plus every leading-digit prefix and word-threshold coefficient against a reduced alphabet; " +
 		"oracle = big-integer truncated quotient N (rounded by the mode only if N is not a member) and exact remainder x - y*N with the sign of x; plus the special-operand table. " +
 		"Cell = (mode, quotient class: x=0, |x|<|y|, integer fits, fits with >35 digits, rounded, overflow; remainder zero or not); non-trivial = anything but a short exact integer quotient."
 	r.Assumptions = []string{"binary codec is the identity on bits (checked at start; decided by C12)", "sign of a zero quotient of finite operands is not pinned by the property and not checked",
